@@ -1334,6 +1334,90 @@ REG.note('C03', 'trusted', 'm2_server/helper: fields extendedMasterSecret and se
                            'Session.create (direct store sites: _handshakeStart, helper, _serverTLS13Handshake; read)')
 
 
+# ---------------------------------------------------------------------------------------------------
+# T8b  key-exchange class and sub-flow dispatch by the negotiated suite (C20; suites classified by the IANA name)
+
+def _t8b():
+    from specs import iana
+    table = iana.table(CipherSuite.ietfNames)
+    dom = dict((i, x) for i, x in table.items() if x.kind == 'tls' and iana.negotiable(x))
+    assert len(dom) >= 60
+    rec = {'kx': 0, 'flows': 0}
+
+    def pred(p):
+        ids = sorted(i for i, x in dom.items() if p(x))
+        return lambda t: z3.Or([t == v_int(z3.IntVal(i)) for i in ids] + [z3.BoolVal(False)])
+    P_DOM = pred(lambda x: True)
+    CLASSES = {
+        # class name -> (IANA condition, text)
+        'RSAKeyExchange': pred(lambda x: x.kx == 'RSA'),
+        'DHE_RSAKeyExchange': pred(lambda x: x.kx == 'DHE' and x.auth in ('RSA', 'DSS')),
+        'ECDHE_RSAKeyExchange': pred(lambda x: x.kx == 'ECDHE' and x.auth in ('RSA', 'ECDSA')),
+        'ADHKeyExchange': pred(lambda x: x.kx == 'DHE' and x.auth == 'anon'),
+        'AECDHKeyExchange': pred(lambda x: x.kx == 'ECDHE' and x.auth == 'anon'),
+    }
+    FLOWS = {
+        '_serverSRPKeyExchange': (pred(lambda x: x.kx == 'SRP'), 3, None),
+        '_serverCertKeyExchange': (pred(lambda x: x.kx in ('RSA', 'DHE', 'ECDHE') and x.auth in ('RSA', 'DSS', 'ECDSA')), 7, 4),
+        '_serverAnonKeyExchange': (pred(lambda x: x.auth == 'anon'), 2, 1),
+    }
+
+    def mk_class(cname):
+        def h(ex, recv, args, kwargs, st, fr, node):
+            rec['kx'] += 1
+            suite = sgc_item(st, 2)
+            s = T(st.env['cipherSuite'])
+            ob(ex, st, 'C20:kx:%s-built-only-for-suites-whose-IANA-name-says-so' % cname,
+               z3.Implies(z3.And(s == suite, P_DOM(s)), CLASSES[cname](s)))
+            ob(ex, st, 'C20:kx:%s-built-for(negotiated-suite,received-ClientHello,ServerHello-being-sent)' % cname,
+               z3.And(s == suite, T(args[0]) == s, T(args[1]) == T(st.env['clientHello']),
+                      T(args[2]) == T(st.env['serverHello'])))
+            r = fresh_opaque('keyExchange_' + cname)
+            st.ghost['kx_obj'] = r
+            return [Outcome('normal', st, r)]
+        return h
+
+    def mk_flow(fname):
+        p, suite_ix, kx_ix = FLOWS[fname]
+
+        def h(ex, recv, args, kwargs, st, fr, node):
+            rec['flows'] += 1
+            suite = sgc_item(st, 2)
+            s = T(st.env['cipherSuite'])
+            ob(ex, st, 'C20:flow:%s-entered-only-for-suites-whose-IANA-name-says-so' % fname,
+               z3.Implies(z3.And(s == suite, P_DOM(s)), p(s)))
+            ob(ex, st, 'C20:flow:%s-gets-the-negotiated-suite' % fname,
+               len(args) > suite_ix and z3.And(s == suite, T(args[suite_ix]) == s))
+            if kx_ix is not None:
+                ko = st.ghost.get('kx_obj')
+                ob(ex, st, 'C20:flow:%s-gets-the-key-exchange-object-dispatched-for-the-suite' % fname,
+                   ko is not None and len(args) > kx_ix and T(args[kx_ix]) == T(ko))
+            r = fresh_opaque(fname + '_result')
+            st.ghost[fname + '_result'] = r
+            ex.havoc_call(fname, st)
+            return [Outcome('normal', st, r)]
+        return h
+
+    hooks = hsh_hooks(rec)
+    for c in CLASSES:
+        hooks[c] = mk_class(c)
+    for f in FLOWS:
+        hooks[f] = mk_flow(f)
+    spec = M2Spec(hooks=hooks, pure=HSH_PURE)
+
+    def check(api):
+        api.oblige(api.entry, 'cover:five-key-exchange-constructor-sites-reached', rec['kx'] >= 5)
+        api.oblige(api.entry, 'cover:three-key-exchange-sub-flows-reached', rec['flows'] >= 3)
+    return spec, check
+
+
+_spec8b, _check8b = _t8b()
+m2s('_handshakeServerAsyncHelper/key-exchange-dispatch', ('C20', 'C03'), HSH, _spec8b, check=_check8b,
+    doc='server (<= TLS 1.2): the KeyExchange class instantiated and the key-exchange sub-flow entered are those the '
+        'IANA name of the negotiated suite denotes (RSA / DHE_RSA|DSS / ECDHE_RSA|ECDSA / DH_anon / ECDH_anon / SRP), '
+        'and they are built for the negotiated suite and the two hellos of this handshake')
+
+
 # ===================================================================================================
 # _server_select_certificate (C03)
 # ===================================================================================================
